@@ -3,6 +3,7 @@ CONSTANTS
   NoKey = "<nokey>"
   NoAccept = ""
   AcceptOf <- TraceAcceptOf
+  OutLevel = "frames"
 INIT TInit
 NEXT TNext
 CONSTRAINT Track
